@@ -79,6 +79,56 @@ def build_harness():
     return rc == 0, out
 
 
+PY_DIR = os.path.join(BUILD, "py")
+PY_SO = os.path.join(PY_DIR, "biodivine_boolean_functions.so")
+
+
+def build_pymodule():
+    """the extension module, built from /repo's working tree (default features = python, plus csv)"""
+    os.makedirs(PY_DIR, exist_ok=True)
+    env = dict(ENV, CARGO_TARGET_DIR=os.path.join(BUILD, "pytarget"))
+    rc, out = sh("cargo build --offline -q --features csv", cwd="/repo", timeout=1800, env=env)
+    if rc != 0:
+        return False, out
+    sh("cp %s %s" % (os.path.join(BUILD, "pytarget", "debug", "libbiodivine_boolean_functions.so"), PY_SO), check=True)
+    return True, out
+
+
+def run_python(paths, timeout=1500):
+    """the same case files through the Python module; returns (lines, called methods, problems)"""
+    out, called, problems = {}, set(), []
+    runner = os.path.join(ROOT, "py", "pyrun.py")
+    env = dict(os.environ, RUST_BACKTRACE="0")
+    def one(p):
+        try:
+            r = subprocess.run(["python3", runner, PY_DIR, p], stdout=subprocess.PIPE, stderr=subprocess.DEVNULL, timeout=timeout, text=True, env=env)
+            return r.returncode, r.stdout
+        except subprocess.TimeoutExpired:
+            return 124, ""
+    with ThreadPoolExecutor(max_workers=NPROC) as ex:
+        for p, (rc, text) in zip(paths, ex.map(one, paths)):
+            if rc != 0:
+                problems.append("python on %s: exit %s (interpreter abort?)" % (os.path.basename(p), rc))
+            for line in text.splitlines():
+                if line.startswith("#called "):
+                    called |= set(line.split()[1:]); continue
+                parts = line.split(" ", 2)
+                if len(parts) == 3:
+                    out[(parts[0], int(parts[1]))] = parts[2]
+    return out, called, problems
+
+
+def python_methods():
+    code = ("import sys; sys.path.insert(0, %r); import biodivine_boolean_functions as M\n"
+            "keep=('__and__','__or__','__invert__','__str__','__repr__','__new__')\n"
+            "for c in (M.Expression, M.Table, M.Bdd):\n"
+            "    for x in dir(c):\n"
+            "        if not x.startswith('__') or (x in keep and x in c.__dict__ and not (x=='__new__' and c is not M.Expression)): print(c.__name__+'.'+x)\n"
+            "for f in ('var','vars','bool'): print('module.'+f)\n") % PY_DIR
+    rc, out = sh(["python3", "-c", code])
+    return set(out.split())
+
+
 # ---------------------------------------------------------------- running cases
 
 def write_shards(prop, cases, nshards=NPROC):
